@@ -325,3 +325,10 @@ def run(ctx: core.Ctx) -> None:
     ctx.extra["tlc_cases"] = {"tables": len(cases), "with_from_table_substitution": n_sub, "with_immobile_rows": n_dead}
     replay_cases(ctx, cases)
     realistic(ctx, terms, 42 if ctx.quick else 420)
+
+    # per-call statement of the property under concurrent use (Reentrant.tla): the same calls from several threads at once
+    from ..drivers import threads  # noqa: PLC0415
+
+    threads.clause(ctx, ['multiphase'])
+
+
